@@ -53,7 +53,8 @@ def seg_plan(rnd, case):
             server.append([rnd.int(1, m - 1)])
         else:
             server.append(sorted(set(rnd.int(1, m - 1) for _ in range(rnd.int(2, 5)))))
-    return {"client": cuts, "server": server, "kind": kind}
+    delay = [rnd.pick([0, 0, 0, 1, 2, 5]) for _ in case["resps"]]
+    return {"client": cuts, "server": server, "kind": kind, "delay": delay}
 
 
 def build(rnd):
